@@ -204,7 +204,7 @@ def oracle_bounded_instance():
 def instances(tier):
     th = tier == 'thorough'
     out = []
-    for K in (1, 2, 3) + ((4,) if th else ()):
+    for K in (1, 2, 3):          # K = 4: 1.6e5 paths x 24 permutations = 4e6 obligations, beyond any budget; K <= 6 is bounded below
         out.append(optimal_vs_all_instance(K))
     out.append(int_grid_instance(2))
     out.append(int_grid_instance(3))
